@@ -128,7 +128,7 @@ def grid(name, tier):
 def kw_limit(name, cfg):
     if name in ('CGKO06.SSE1', 'CGKO06.SSE2'):
         return cfg['param_l']
-    return 32
+    return 5000          # no limit in the library: several KiB, i.e. longer than any hash block or internal buffer
 
 
 def capacity(name, cfg):
@@ -342,6 +342,8 @@ def build_db(seed, name, label, cfg, profile, kwlen, relation, awkward=True):
         from schemes.CGKO06.SSE2.config import determine_param_max
         if determine_param_max(cfg['param_max_file_size']) < len(profile):
             relation = 'disjoint'
+    if relation == 'mixed-ids' and 'param_identifier_size' in cfg:
+        relation = 'disjoint'                  # only a scheme without an identifier-size parameter (PiBas) takes mixed lengths
     g = det.rng(seed, 'db', name, label, tuple(profile), kwlen, relation)
     db = domains.make_db(profile, cfg.get('param_identifier_size', 8), kwlen, g, relation, awkward)
     return db, finalize_cfg(name, cfg, db), g
